@@ -6,12 +6,14 @@ in : join    <kind> <order> <elems> <extra>     kind ∈ kwargs keys pstr kinds
      ornarrow <a<b,…> <vals: any|id,…> <order ids> <elems ids>
      try     <pre ids> <order ids> <elems ids>
      orbound <order: ids joined by '.' ,…> <elems>
+     defnodes <order: member ids of each node joined by '.' ,…> <elems>
      sorted  <codes>
      closure <a>b,…> <start> <choices>
      memo    <hashable keys> <keys whose value is None> <queries>
      hist    <world> <tobjs> <ranks> <fuel> <history> <query>
-             world  p.v:member/member;…   member = atom+atom   atom = T | F | A | Sp.v
-             tobjs  v=t,…    ranks  p.t=r,…    query  n<p>.<v> | x<p>.<v>
+             world  p.a.v:member/member;…   member = atom+atom   atom = T | F | A | Sp.a.v
+             tobjs  v=t,…    ranks  p.t=r,…    query  n<p>.<a>.<v> | x<p>.<a>.<v>
+     memo    … a 4th field lists the keys already in the table
      cls     <hint> <message a> <message b>
 out: one line per case (see `handle`); unparseable input prints `bad-op`.
 -/
@@ -35,6 +37,11 @@ def parsePair (sep : String) (s : String) : Option (Nat × Nat) :=
   | [a, b] => do some ((← a.toNat?), (← b.toNat?))
   | _ => none
 
+def parseTriple (s : String) : Option (Nat × Nat × Nat) :=
+  match s.splitOn "." with
+  | [a, b, c] => do some ((← a.toNat?), (← b.toNat?), (← c.toNat?))
+  | _ => none
+
 def parseMember : String → Option Member
   | "any" => some .any
   | s => s.toNat?.map .typed
@@ -45,16 +52,16 @@ def showMember : Member → String
 def parseAtom (s : String) : Option Atom :=
   if s == "T" then some (.const true) else if s == "F" then some (.const false)
   else if s == "A" then some .anyOk
-  else if s.startsWith "S" then (parsePair "." (s.drop 1).toString).map fun pv => .sub pv.1 pv.2
+  else if s.startsWith "S" then (parseTriple (s.drop 1).toString).map fun t => .sub t.1 t.2.1 t.2.2
   else none
 
 def parseMemberReq (s : String) : Option (List Atom) :=
   if s.isEmpty then some [] else (s.splitOn "+").mapM parseAtom
 
-def parseReq (s : String) : Option ((Pid × Vid) × List (List Atom)) :=
+def parseReq (s : String) : Option ((Pid × Nat × Vid) × List (List Atom)) :=
   match s.splitOn ":" with
   | [pv, ms] => do
-    let pv ← parsePair "." pv
+    let pv ← parseTriple pv
     let ms ← if ms.isEmpty then some [] else (ms.splitOn "/").mapM parseMemberReq
     some (pv, ms)
   | _ => none
@@ -71,11 +78,37 @@ def parseRanks (s : String) : Option (List ((Pid × Nat) × Nat)) :=
 
 def parseQuery (s : String) : Option Query :=
   let rest := (s.drop 1).toString
-  if s.startsWith "n" then (parsePair "." rest).map fun pv => ⟨false, pv.1, pv.2⟩
-  else if s.startsWith "x" then (parsePair "." rest).map fun pv => ⟨true, pv.1, pv.2⟩
+  if s.startsWith "n" then (parseTriple rest).map fun t => ⟨false, t.1, t.2.1, t.2.2⟩
+  else if s.startsWith "x" then (parseTriple rest).map fun t => ⟨true, t.1, t.2.1, t.2.2⟩
   else none
 
 def orNone (o : Option String) : String := o.getD "-"
+
+/-- `variant` = which cache-key repairs the implementation under check has (mode, generic
+arguments, no caching under assumptions), as three 0/1 characters; `000` = the pinned code. -/
+def histLine (reqs tobjs ranks fuel hist query variant : String) : String :=
+  match parseWorld reqs tobjs, parseRanks ranks, fuel.toNat?, (csv hist).mapM parseQuery, parseQuery query with
+  | some W, some rk, some fuel, some h, some q =>
+    let rkf := rankOf rk
+    let gfp := (gfpCompat W q.ex).contains (q.p, q.a, q.v)
+    let common := s!"gfp={b01 gfp} sem={b01 (sem W q.ex fuel q.p q.a q.v)} modeMix={b01 (D10_modeMix h q)} selfArgs={b01 (D10_selfArgs W h q)} cyclic={b01 (D10_cyclic W rkf)}"
+    if variant == "000" then
+      let ans := answers W fuel {} (h ++ [q])
+      let fresh := answerFresh W fuel q
+      let freshAll := (h ++ [q]).map fun q' => answerFresh W fuel q'
+      s!"ans={String.join (ans.map b01)} fresh={b01 fresh} freshAll={String.join (freshAll.map b01)} {common} D={historyClass W rkf fuel h q}"
+    else
+      match variant.toList with
+      | [m, a, t] =>
+        let mk := m == '1'
+        let ak := a == '1'
+        let to := t == '1'
+        let ans := answers2 W mk ak to fuel {} (h ++ [q])
+        let fresh := answerAfter2 W mk ak to fuel [] q
+        let freshAll := (h ++ [q]).map fun q' => answerAfter2 W mk ak to fuel [] q'
+        s!"ans={String.join (ans.map b01)} fresh={b01 fresh} freshAll={String.join (freshAll.map b01)} {common} D=-"
+      | _ => "bad-op"
+  | _, _, _, _, _ => "bad-op"
 
 def handle (line : String) : String :=
   match line.splitOn "\t" with
@@ -111,6 +144,12 @@ def handle (line : String) : String :=
     | some p, some o, some e =>
       s!"perm={b01 (isPermOf o e)} D={if D10_twoOrMore e then "twoOrMore" else "-"} out={showNats (siteTryDefNodes p o)}"
     | _, _, _ => "bad-op"
+  | ["defnodes", order, elems] =>
+    let p (s : String) := (csv s).mapM fun b => (if b.isEmpty then [] else b.splitOn ".").mapM (·.toNat?)
+    match p order, p elems with
+    | some o, some e =>
+      s!"perm={b01 (isPermOf o e)} D={if D10_twoOrMore e then "twoOrMore" else "-"} out={showNats (siteDefNodes (fun _ => true) o)}"
+    | _, _ => "bad-op"
   | ["orbound", order, elems] =>
     let p (s : String) := (csv s).mapM fun b => (if b.isEmpty then [] else b.splitOn ".").mapM (·.toNat?)
     match p order, p elems with
@@ -130,28 +169,20 @@ def handle (line : String) : String :=
       let (seen, pending, result) := closureRun succ s ch
       s!"done={b01 pending.isEmpty} seen={showNats (isort seen)} result={showNats (isort result)}"
     | _, _, _ => "bad-op"
-  | ["memo", hashable, nones, queries] =>
-    match nats hashable, nats nones, nats queries with
-    | some hs, some ns, some qs =>
+  | ["memo", hashable, nones, queries, initial] =>
+    match nats hashable, nats nones, nats queries, nats initial with
+    | some hs, some ns, some qs, some ini =>
       let f : Nat → Option Nat := fun q => if ns.contains q then none else some (q + 1000)
       let step := memoStep (Q := Nat) id (fun k => hs.contains k) f f
       let (tbl, outs) := qs.foldl (fun (acc : List (Nat × Nat) × List String) q =>
         let r := step acc.1 q
         let tag := if !hs.contains q then "bypass" else if r.2.2 then "hit"
                    else if r.1.isNone then "nocache" else "miss"
-        (r.2.1, acc.2 ++ [tag])) ([], [])
+        (r.2.1, acc.2 ++ [tag])) (ini.map fun k => (k, k + 1000), [])
       s!"size={tbl.length} trace={",".intercalate outs}"
-    | _, _, _ => "bad-op"
-  | ["hist", reqs, tobjs, ranks, fuel, hist, query] =>
-    match parseWorld reqs tobjs, parseRanks ranks, fuel.toNat?, (csv hist).mapM parseQuery, parseQuery query with
-    | some W, some rk, some fuel, some h, some q =>
-      let rkf := rankOf rk
-      let ans := answers W fuel {} (h ++ [q])
-      let fresh := answerFresh W fuel q
-      let gfp := (gfpCompat W q.ex).contains (q.p, q.v)
-      let freshAll := (h ++ [q]).map fun q' => answerFresh W fuel q'
-      s!"ans={String.join (ans.map b01)} fresh={b01 fresh} freshAll={String.join (freshAll.map b01)} gfp={b01 gfp} sem={b01 (sem W q.ex fuel q.p q.v)} modeMix={b01 (D10_modeMix h q)} cyclic={b01 (D10_cyclic W rkf)} D={historyClass W rkf fuel h q}"
-    | _, _, _, _, _ => "bad-op"
+    | _, _, _, _ => "bad-op"
+  | ["hist", reqs, tobjs, ranks, fuel, hist, query] => histLine reqs tobjs ranks fuel hist query "000"
+  | ["hist", reqs, tobjs, ranks, fuel, hist, query, variant] => histLine reqs tobjs ranks fuel hist query variant
   | ["cls", hint, a, b] => s!"D={orderClass hint a b}"
   | _ => "bad-op"
 
